@@ -95,7 +95,8 @@ class Ctx:
 
     def raw(self):
         """Every raw field a property names, as plain comparable data."""
-        d = {"wallet": dict(sorted(self.wallet().items()))}
+        # a wallet entry with balance 0 is the same holding as no entry
+        d = {"wallet": {k: v for k, v in sorted(self.wallet().items()) if v != 0}}
         for a in self.adapters:
             d[a.market.market_info.name] = a.raw()
         d["actions"] = len(self.actions)
